@@ -288,6 +288,44 @@ fn check_settled(
       return false;
     }
   }
+  // no entry is left unfinished: a registry module built from the manifest's
+  // embedded module information starts as a placeholder with empty text; it
+  // may stay a module only if its content arrived (some request for it was
+  // answered with content under its own specifier), otherwise the failed
+  // content load has to have turned it into an error entry
+  for (u, slot) in &shape.slots {
+    let crate::shape::SlotShape::Module(m) = slot else { continue };
+    if !(m.kind == "js" || m.kind == "json") || !u.starts_with(REGISTRY) {
+      continue;
+    }
+    if run.obs["modules"][u.as_str()]["source"].as_str() != Some("") {
+      continue;
+    }
+    let content_arrived = run.loads.iter().any(|l| {
+      l.id.url == *u
+        && l.answer == "module"
+        && l.final_url.as_deref() == Some(u.as_str())
+    });
+    if !content_arrived {
+      out.violation(
+        "C03",
+        "no-unfinished-entry",
+        "placeholder-module-never-filled".to_string(),
+        format!(
+          "{} is a module with empty text although no request for it was answered with its content (requests: {:?})",
+          u,
+          run
+            .loads
+            .iter()
+            .filter(|l| l.id.url == *u)
+            .map(|l| format!("{} -> {}", l.id.label(), l.answer))
+            .collect::<Vec<_>>()
+        ),
+        ctx.clone(),
+      );
+      return false;
+    }
+  }
   // every redirect of the graph was made by somebody: the loader (a redirect
   // answer or a response naming another final specifier), the lockfile, or
   // the resolution of a `jsr:` specifier to a file of a package
